@@ -1,0 +1,14 @@
+//go:build verif
+
+package proxy
+
+import "go.minekube.com/gate/pkg/edition/java/proto/packet"
+
+// Export for the external verification harness of keep-alive reply forwarding (C18).
+
+// VerifForwardKeepAlive is forwardKeepAlive: what the client play / config session
+// handlers call from the client read loop for a KeepAlive packet. The harness calls it
+// from several goroutines at once for one player.
+func VerifForwardKeepAlive(pl Player, id int64) {
+	forwardKeepAlive(&packet.KeepAlive{RandomID: id}, pl.(*connectedPlayer))
+}
